@@ -19,58 +19,58 @@ import (
 // size bookkeeping is satisfied (the archive closes cleanly).
 func VH_C17_tar() {
 	maxb := v.Param("MAXB", 2)
-	fs := &memFS{walkErrAt: -1}
+	fs := &vh_memFS{walkErrAt: -1}
 	// FileInfoHeader branches on each of setuid/setgid/sticky: to keep the product small the special
 	// bits are symbolic on the entry selected by SPECIAL only, permission bits on all
 	special := v.Param("SPECIAL", 1)
-	add := func(p string, class int) *memEntry {
+	add := func(p string, class int) *vh_memEntry {
 		mask := uint32(0777)
 		if len(fs.entries) == special {
-			mask = permMask
+			mask = vh_permMask
 		}
-		st := &types.Stat{Path: p, Mode: modeFor(class, 0) | (v.U32("perm") & mask), Uid: v.U32("uid"), Gid: v.U32("gid"), ModTime: chooseMtime("mtime")}
+		st := &types.Stat{Path: p, Mode: vh_modeFor(class, 0) | (v.U32("perm") & mask), Uid: v.U32("uid"), Gid: v.U32("gid"), ModTime: vh_chooseMtime("mtime")}
 		v.Assume(v.And(st.Uid < 1<<21, st.Gid < 1<<21)) // USTAR octal field range; larger ids need PAX records (trusted encoder)
-		e := &memEntry{stat: st}
+		e := &vh_memEntry{stat: st}
 		fs.entries = append(fs.entries, e)
 		return e
 	}
-	d := add("d", clsDir)
+	d := add("d", vh_clsDir)
 	if v.Bool("xattr-d") {
 		d.stat.Xattrs = map[string][]byte{"user.a": v.Bytes("xa", 1)} // another key than the file's
 	}
-	f := add("d/f", clsFile)
+	f := add("d/f", vh_clsFile)
 	f.data = v.Bytes("data", v.Choose("size", maxb+1))
 	f.stat.Size = int64(len(f.data))
 	if v.Bool("xattr") {
 		f.stat.Xattrs = map[string][]byte{"user.k": v.Bytes("xv", 1)}
 	}
 	if v.Bool("has-h") {
-		h := add("h", clsFile)
+		h := add("h", vh_clsFile)
 		h.stat.Linkname = "d/f"
 		h.stat.Mode, h.stat.Uid, h.stat.Gid, h.stat.ModTime = f.stat.Mode, f.stat.Uid, f.stat.Gid, f.stat.ModTime
 		h.stat.Size = f.stat.Size // mkstat leaves the size of the inode on link entries
 		h.data = f.data
 	}
 	if v.Bool("has-l") {
-		l := add("l", clsSymlink)
+		l := add("l", vh_clsSymlink)
 		l.stat.Linkname = "d/f"
 		l.stat.Size = 3
 	}
 	switch v.Choose("class-p", 4) {
 	case 1:
-		add("p", clsFifo)
+		add("p", vh_clsFifo)
 	case 2:
-		p := add("p", clsFile)
-		p.stat.Mode = uint32(os.ModeDevice|os.ModeCharDevice) | (p.stat.Mode & permMask)
+		p := add("p", vh_clsFile)
+		p.stat.Mode = uint32(os.ModeDevice|os.ModeCharDevice) | (p.stat.Mode & vh_permMask)
 		p.stat.Devmajor, p.stat.Devminor = int64(v.U32("major")&0xfff), int64(v.U32("minor")&0xff)
 	case 3:
-		p := add("p", clsFile)
-		p.stat.Mode = uint32(os.ModeDevice) | (p.stat.Mode & permMask) // block device
+		p := add("p", vh_clsFile)
+		p.stat.Mode = uint32(os.ModeDevice) | (p.stat.Mode & vh_permMask) // block device
 		p.stat.Devmajor, p.stat.Devminor = int64(v.U32("major")&0xfff), int64(v.U32("minor")&0xff)
 	}
 	if last := fs.entries[len(fs.entries)-1]; last.stat.Path == "p" && v.Bool("has-q") {
 		// a second name of the special file's inode: the walk reports it as a link entry naming the first
-		q := add("q", clsFile)
+		q := add("q", vh_clsFile)
 		q.stat.Linkname = "p"
 		q.stat.Mode, q.stat.Uid, q.stat.Gid, q.stat.ModTime = last.stat.Mode, last.stat.Uid, last.stat.Gid, last.stat.ModTime
 		q.stat.Devmajor, q.stat.Devminor = last.stat.Devmajor, last.stat.Devminor
@@ -115,7 +115,7 @@ func VH_C17_tar() {
 		v.Assert(mem.Typeflag == wantType, "member type matches the entry type")
 		v.Assert(mem.Linkname == st.Linkname, "link members name their target")
 		v.Assert(mem.Uid == int(st.Uid) && mem.Gid == int(st.Gid), "uid/gid are the view's")
-		v.Assert(mem.Mode&07777 == int64(goModeToUnixPerm(st.Mode)), "permission and setuid/setgid/sticky bits are the view's")
+		v.Assert(mem.Mode&07777 == int64(vh_goModeToUnixPerm(st.Mode)), "permission and setuid/setgid/sticky bits are the view's")
 		v.Assert(mem.ModSec == st.ModTime/1000000000, "mtime is the view's, to the second")
 		v.Assert(mem.Devmajor == st.Devmajor && mem.Devminor == st.Devminor, "device numbers are the view's")
 		if wantType == tar.TypeReg {
